@@ -827,6 +827,21 @@ def live_entries(blk):
     except (IndexError, ValueError):
         return None
 
+def _norm_numeric(tokens):
+    """REAL tokens that hold an integer within +-2^53 are rewritten as INTEGER tokens: keys that are
+    equal in SQLite's order are one key, and which representation survives a merge depends on the
+    merge order (the recovery opens of different crash points merge in different orders)"""
+    import struct
+    out, i = [], 0
+    while i < len(tokens):
+        t = tokens[i]
+        if t == 'R' and i + 1 < len(tokens) and tokens[i + 1].isdigit():
+            f = struct.unpack('>d', int(tokens[i + 1]).to_bytes(8, 'big'))[0]
+            if f == f and abs(f) <= 2 ** 53 and f == int(f):
+                out += ['I', str(int(f))]; i += 2; continue
+        out.append(t); i += 1
+    return out
+
 def c04_monitor(ctx, res, case, impl_line, model_line, spec):
     """every crash point of a commit: recovery (read-only and read-write) succeeds and shows
     exactly the old or exactly the new contents; from the PUT of the version object on, the new."""
@@ -848,6 +863,7 @@ def c04_monitor(ctx, res, case, impl_line, model_line, spec):
             elif cur is not None:
                 cur.append(t)
         if cur is not None: blocks.append(cur)
+        blocks = [_norm_numeric(b) for b in blocks]
         if toks[mi + 1] == '{':
             # a vacuum: while the parent is not yet retired its purged delete markers are merged
             # back in; what must be old-or-new is what the table CONTAINS (the live rows)
